@@ -1,12 +1,19 @@
 #!/bin/bash
-# usage: confirm_seed.sh <seed dir> <worktree>   — confirms: patch applies, builds (both tags), suites pass, demo fails with / passes without
+# usage: confirm_seed.sh <seed dir> <worktree>
+# confirms: patch applies, builds (both tags), suites pass, demo fails with / passes without the change.
+# The demo is either a Go test module (demo/go.mod, run with go test) or a script demo/run.sh <worktree> (exit 0 = property holds).
 export GOFLAGS=-mod=mod GOPROXY=off GOSUMDB=off GOTOOLCHAIN=local
-S=$1; W=$2
+S=$(cd $1 && pwd); W=$2
+demo() {
+  if [ -x $S/demo/run.sh ] || [ -f $S/demo/run.sh ]; then (cd $S/demo && bash ./run.sh $W 2>&1 | tail -6; echo "demo exit=${PIPESTATUS[0]}")
+  elif [ -d $S/demo ]; then (cd $S/demo && go test -count=1 ./... 2>&1 | tail -4)
+  else echo "(no demo)"; fi
+}
 cd $W && git checkout -q -- . && git clean -fdq
-echo "== demo WITHOUT change"; (cd $S/demo 2>/dev/null && go test -count=1 ./... 2>&1 | tail -3) || echo "(no go-test demo dir)"
+echo "== demo WITHOUT change"; demo
 git apply $S/patch.diff && echo "== patch applied" || exit 1
 go build ./... && go build -tags verif ./... && echo "== builds ok"
-echo "== root suite"; go test -count=1 ./... 2>&1 | grep -v "^ok\|no test files" | head -5
-echo "== internal/tests suite"; (cd internal/tests && go test -count=1 ./... 2>&1 | grep -v "^ok\|no test files" | grep -v "TestPanicRecovered\|predicate_test.go:60\|Error Trace\|Error:\|Test:\|Messages:\|^FAIL$\|FAIL.*predicate" | head -5)
-echo "== demo WITH change"; (cd $S/demo 2>/dev/null && go test -count=1 ./... 2>&1 | tail -4)
+echo "== root suite"; go test -vet=off -count=1 ./... 2>&1 | grep -v "^ok\|no test files" | head -5
+echo "== internal/tests suite"; (cd internal/tests && go test -vet=off -count=1 ./... 2>&1 | grep -v "^ok\|no test files" | grep -v "TestPanicRecovered\|predicate_test.go:60\|Error Trace\|Error:\|Test:\|Messages:\|^FAIL$\|FAIL.*predicate" | head -5)
+echo "== demo WITH change"; demo
 git checkout -q -- . && git clean -fdq
